@@ -233,6 +233,8 @@ func runC19(e *Engine, r *Report) {
 	ruleAppendSetsRange(e, r)
 	ruleUpdateCarriesEntriesToSave(e, r)
 	ruleFirstIndexSnapshotFirst(e, r)
+	ruleSetRangeRebases(e, r)
+	ruleCommitUpdateActs(e, r)
 }
 
 // blockReaches: is b reachable from a (a != b) in the CFG?
